@@ -5,6 +5,12 @@ stdin : {"groups": [ {"id": ..., "expr": EXPR, "operands": {name: OPERAND}} ]}
   OPERAND = {"values": [floats as hex or ints] | [[x,y,z],...], "unit": str, "dtype": "float64|float32|int64|int32|vector3",
              "dim": "x" | "y" | null,            # null = 0-d scalar
              "binned": false}
+            or, n-d (instead of "dim"):
+            {"values": flat list in C order of ("dims", "shape"), "unit", "dtype",
+             "dims": ["y", "x"], "shape": [3, 4],  # the LOGICAL dims / shape of the Variable handed to the kernel
+             "layout": {"store": ["x", "y"],      # memory order of the underlying buffer; != dims -> a .transpose() view
+                        "pad": {"x": [before, after, step]}}}   # the operand is the slice [before : ... : step] of a
+                                                  # larger buffer (other, plausible values around / between its elements)
   EXPR    = "$name" | {"call": "pkg.module:function", "args": {kw: EXPR}, "pos": [EXPR], "get": key?}
 stdout: 'RESULT <json>' with, per group, the operands as actually stored (exact rationals, unit
         multiplier and base-unit powers from scipp) and the result (per element, exact) or the error class.
@@ -42,7 +48,62 @@ def exact(x):
     return [str(fr.numerator), str(fr.denominator)]
 
 
+def _plain(v):
+    return float.fromhex(v) if isinstance(v, str) else v
+
+
+def build_nd(spec):
+    """n-d operand with an explicit memory layout (module docstring): logical element [i_0, ..] of dims is
+    values[ravel(i, shape)] whatever the layout"""
+    dt = spec['dtype']
+    dims = list(spec['dims'])
+    shape = [int(n) for n in spec['shape']]
+    unit = spec['unit']
+    lay = spec.get('layout') or {}
+    if dt == 'vector3':
+        arr = np.array([[_plain(c) for c in v] for v in spec['values']], dtype='float64').reshape([*shape, 3])
+        if not dims:
+            return sc.vector(arr, unit=unit)
+        if lay:
+            raise ValueError('layout of vector operands is not supported')
+        return sc.vectors(dims=dims, values=arr, unit=unit)
+    arr = np.array([_plain(v) for v in spec['values']]).astype(dt).reshape(shape)
+    if not dims:
+        return sc.scalar(arr[()], unit=unit, dtype=dt)
+    pad = {d: [int(x) for x in p] for d, p in (lay.get('pad') or {}).items()}
+    store = list(lay.get('store') or dims)
+    if sorted(store) != sorted(dims) or any(d not in dims for d in pad):
+        raise ValueError('layout does not match dims')
+    big_shape, sl = [], []
+    for d, n in zip(dims, shape):
+        before, after, step = pad.get(d, [0, 0, 1])
+        if before < 0 or after < 0 or step < 1:
+            raise ValueError('bad padding')
+        span = (n - 1) * step + 1 if n > 0 else 0
+        big_shape.append(before + span + after)
+        sl.append(slice(before, before + span, step))
+    # the surrounding buffer holds other values of the same kind (a positional read of the buffer gets those)
+    flat = arr.reshape(-1)
+    if flat.size:
+        other = (flat[::-1].astype('float64') * 1.37 + (1 if dt.startswith('int') else 0)).astype(dt)
+        big = np.resize(other, big_shape).astype(dt)
+    else:
+        big = np.zeros(big_shape, dtype=dt)
+    big[tuple(sl)] = arr
+    perm = [dims.index(d) for d in store]
+    base = sc.array(dims=store, values=np.ascontiguousarray(big.transpose(perm)), unit=unit, dtype=dt)
+    var = base
+    for d, s in zip(dims, sl):
+        if d in pad:
+            var = var[d, s]
+    if store != dims:
+        var = var.transpose(dims)
+    return var
+
+
 def build_operand(spec):
+    if 'dims' in spec:
+        return build_nd(spec)
     dt = spec['dtype']
     dim = spec.get('dim')
     vals = spec['values']
@@ -59,8 +120,9 @@ def build_operand(spec):
 
 
 def stored(var):
-    """the operand as the implementation sees it"""
-    info = {'unit': unit_info(var.unit), 'dtype': str(var.dtype), 'dims': list(var.dims)}
+    """the operand as the implementation sees it: values in C order of its LOGICAL (dims, shape), whatever the
+    memory layout"""
+    info = {'unit': unit_info(var.unit), 'dtype': str(var.dtype), 'dims': list(var.dims), 'shape': list(var.shape)}
     if var.dtype == sc.DType.vector3:
         v = var.values.reshape(-1, 3)
         info['values'] = [[exact(c) for c in row] for row in v]
